@@ -1,6 +1,7 @@
 /- Driver for C11: naive / polynomial-trend / statsmodels-adapter models.  Import-free (Model only). -/
 import SkVerif.Model.Naive
 import SkVerif.Model.Trend
+import SkVerif.Model.History
 import SkVerif.Drv.Parse
 namespace SkVerif.Drv.C11
 open SkVerif SkVerif.Drv SkVerif.Naive
@@ -48,6 +49,34 @@ def handle (toks : List String) : String :=
       let sm : Int → Val := fun i => if i < 0 then none else (dense[i.toNat]?).getD none
       showSeries (Trend.adapterPredict sm n origin (.ints fh) rel)
     | _, _, _, _, _ => "bad-op"
+  | ["naiveh", st0, sp0, wl0, o0, y0, st, sp, wl, origin, y, fh, rel] =>
+    match parseStrategy? st0, parseInt? sp0, parseOInt? wl0, parseInt? o0, parseORatList? y0,
+          parseStrategy? st, parseInt? sp, parseOInt? wl, parseInt? origin, parseORatList? y,
+          parseIntList? fh, parseBool? rel with
+    | some st0, some sp0, some wl0, some o0, some y0, some st, some sp, some wl, some origin, some y, some fh, some rel =>
+      showSeries (History.naiveHistory st0 sp0 wl0 y0 o0 st sp wl y origin (.ints fh) rel)
+    | _, _, _, _, _, _, _, _, _, _, _, _ => "bad-op"
+  | ["trendh", d0, b0, o0, y0, deg, bias, origin, y, fh, rel] =>
+    match parseNat? d0, parseBool? b0, parseInt? o0, parseORatList? y0, parseNat? deg, parseBool? bias, parseInt? origin,
+          parseORatList? y, parseIntList? fh, parseBool? rel with
+    | some d0, some b0, some o0, some y0, some deg, some bias, some origin, some y, some fh, some rel =>
+      if deg > 1 then "bad-op"
+      else match History.trendHistory d0 b0 y0 o0 deg bias y origin with
+        | .error e => showErr e
+        | .ok o => showSeries (o.predict (.ints fh) rel)
+    | _, _, _, _, _, _, _, _, _, _ => "bad-op"
+  | ["designh", d0, b0, o0, n0, deg, bias, origin, n, fh, rel] =>
+    match parseNat? d0, parseBool? b0, parseInt? o0, parseNat? n0, parseNat? deg, parseBool? bias, parseInt? origin,
+          parseNat? n, parseIntList? fh, parseBool? rel with
+    | some d0, some b0, some o0, some n0, some deg, some bias, some origin, some n, some fh, some rel =>
+      let ramp := fun (k : Nat) => (List.range k).map (fun (i : Nat) => (some ((i : Int) : Rat) : Val))
+      match History.trendHistory d0 b0 (ramp n0) o0 deg bias (ramp n) origin with
+      | .error e => showErr e
+      | .ok o =>
+        match o.designs (.ints fh) rel with
+        | .error e => showErr e
+        | .ok (xf, xp, labels) => s!"fit={showRows xf} pred={showRows xp} idx={showIntList labels}"
+    | _, _, _, _, _, _, _, _, _, _ => "bad-op"
   | _ => "bad-op"
 
 end SkVerif.Drv.C11
